@@ -76,7 +76,51 @@ def run(repo: Repo, tier: str, res: CheckResult, seed: int = 0) -> None:
             for strict in (True, False):
                 n_groups += group_findings(repo, res, "C06", ci, meth, role, strict, eng)
     res.count("SIB.mode-sibling-groups", n_groups, 12)
+    swallow_rule(repo, R, res)
     # generated programs
     from .. import genprog
     genprog.c06_checks(repo, tier, res, seed)
     res.assumptions = list(ASSUMPTIONS)
+
+
+def swallow_rule(repo: Repo, R: Resolver, res: CheckResult) -> None:
+    """DISABLE and FIRST variants let an unexpected (non-LoadError) exception of an element/field/case loader propagate; a
+    variant that catches `Exception` must therefore never complete normally afterwards (SWALLOW, sa/swallow.py)"""
+    from .. import swallow
+    from ..closures import Inventory
+    from ..core import func_params
+    inv = Inventory(repo, R)
+    seen = set()
+    todo = []
+    for c in inv.closures:
+        if c.kind == "func" and c.fctx is not None:
+            todo.append((c.fctx.module, c.fctx.fn))
+    for m in repo.modules.values():
+        if "/morphing/" not in m.rel and "/conversion/" not in m.rel:
+            continue
+        for node in ast.walk(m.tree):
+            if isinstance(node, ast.FunctionDef) and m.enclosing_function(node) is not None and m.enclosing_class(node) is not None:
+                todo.append((m, node))
+    n = n_handlers = 0
+    for m, fn in todo:
+        if id(fn) in seen:
+            continue
+        seen.add(id(fn))
+        if not any(isinstance(x, ast.Try) for x in ast.walk(fn)):
+            continue
+        sw = swallow.analyse(fn)
+        if not sw.handlers_seen:
+            continue
+        n += 1
+        n_handlers += sw.handlers_seen
+        qual = m.qualname(fn)
+        res.evaluated(f"swallow:{m.rel}:{qual}", True)
+        for node, hline, kind in sw.findings:
+            what = f"`{norm(node)[:80]}`" if kind == "return" else "the end of the body"
+            res.add(Finding("C06", "SWALLOW.unexpected-error-then-success", m.rel, qual,
+                            (norm(node)[:100] if kind == "return" else "falls off the end") + " after except Exception",
+                            f"after the handler at line {hline} caught an unexpected exception (anything that is not a LoadError) "
+                            f"the closure can still reach {what} and complete normally: in this mode the datum is accepted while "
+                            "the DISABLE/FIRST variants propagate the exception", getattr(node, "lineno", fn.lineno)))
+    res.count("SWALLOW.closures-with-broad-handler", n, 8)
+    res.coverage["broad_handlers"] = n_handlers
